@@ -187,9 +187,12 @@ func (sw *SprayAndWait) ReportFailure(bp BundleDescriptor, sender cla.Convergenc
 		"bad_cla": sender,
 	}).Debug("Transmission failure")
 
-	sw.dataMutex.RLock()
+	// Failures are reported concurrently, from one Goroutine for each peer. Thus, the whole read-modify-write cycle
+	// must be guarded; otherwise one of two copies given back at the same time is lost.
+	sw.dataMutex.Lock()
+	defer sw.dataMutex.Unlock()
+
 	metadata, ok := sw.bundleData[bp.Id]
-	sw.dataMutex.RUnlock()
 	if !ok {
 		log.WithFields(log.Fields{
 			"bundle": bp.ID(),
@@ -208,9 +211,7 @@ func (sw *SprayAndWait) ReportFailure(bp BundleDescriptor, sender cla.Convergenc
 		}
 	}
 
-	sw.dataMutex.Lock()
 	sw.bundleData[bp.Id] = metadata
-	sw.dataMutex.Unlock()
 }
 
 func (_ *SprayAndWait) ReportPeerAppeared(_ cla.Convergence) {}
@@ -416,9 +417,10 @@ func (bs *BinarySpray) ReportFailure(bp BundleDescriptor, sender cla.Convergence
 
 	binarySprayBlock := metadataBlock.Value.(*bpv7.BinarySprayBlock)
 
-	bs.dataMutex.RLock()
+	bs.dataMutex.Lock()
+	defer bs.dataMutex.Unlock()
+
 	metadata, ok := bs.bundleData[bp.Id]
-	bs.dataMutex.RUnlock()
 	if !ok {
 		log.WithFields(log.Fields{
 			"bundle":  bp.ID(),
@@ -437,9 +439,7 @@ func (bs *BinarySpray) ReportFailure(bp BundleDescriptor, sender cla.Convergence
 		}
 	}
 
-	bs.dataMutex.Lock()
 	bs.bundleData[bp.Id] = metadata
-	bs.dataMutex.Unlock()
 }
 
 func (_ *BinarySpray) ReportPeerAppeared(_ cla.Convergence) {}
